@@ -318,8 +318,10 @@ def _env_hard(limit_type):
         hi = [z3.Real("upper_%d" % i) for i in range(2)]
         ts = lambda i: PyObjV("TimeSeries", um, {"t": [T], "vals": [sp[i]], "units": "$", "assumption": None, "sigma": None, "_sampled": False})
         instructions = PyObjV("ProgramInstructions", source.load("programs"), {"alloc": {"a": ts(0), "b": ts(1)}})
-        adj = lambda i, p: PyObjV("SpendingAdjustment", om, {"name": p, "prog_name": p, "t": np.array([T]),
-                                                              "adjustables": [PyObjV("Adjustable", om, {"name": p, "limit_type": limit_type, "lower_bound": lo[i], "upper_bound": hi[i]})]})
+        # program a is adjustable in an EARLIER year too, with other bounds: the bounds of the constrained year must be used
+        early = PyObjV("Adjustable", om, {"name": "a", "limit_type": limit_type, "lower_bound": z3.Real("lower_early"), "upper_bound": z3.Real("upper_early")})
+        adj = lambda i, p: PyObjV("SpendingAdjustment", om, {"name": p, "prog_name": p, "t": np.array([2015.0, T]) if i == 0 else np.array([T]),
+                                                              "adjustables": ([early] if i == 0 else []) + [PyObjV("Adjustable", om, {"name": p, "limit_type": limit_type, "lower_bound": lo[i], "upper_bound": hi[i]})]})
         optimization = PyObjV("Optimization", om, {"adjustments": [adj(0, "a"), adj(1, "b")]})
         total = z3.Real("TOTAL")
         hc = {"programs": {T: ["a", "b"]}, "initial_total_spend": {T: total}, "bounds": {}}
@@ -336,10 +338,10 @@ for _lt in ("abs", "rel"):
         requires=["sp[0] >= 0", "sp[1] >= 0"],
         raises={"UnresolvableConstraint": "LO[0] + LO[1] > TOTAL or HI[0] + HI[1] < TOTAL"}, raises_props=["C14"],
         ensures=[
-            ("C14.each_program_is_bounded_by_its_adjustable_at_that_year", "hard_constraints['bounds'][2020.0]['a'] == (LO[0], HI[0]) and hard_constraints['bounds'][2020.0]['b'] == (LO[1], HI[1])"),
+            ("C14+C15.each_program_is_bounded_by_its_adjustable_at_that_year", "hard_constraints['bounds'][2020.0]['a'] == (LO[0], HI[0]) and hard_constraints['bounds'][2020.0]['b'] == (LO[1], HI[1])"),
             ("C14.an_accepted_total_lies_between_the_sums_of_the_bounds", "LO[0] + LO[1] <= TOTAL and TOTAL <= HI[0] + HI[1]"),
         ],
-        defined_props=["C14"])
+        defined_props=["C14", "C15"])
 
 
 def _replay_hard(limit_type):
@@ -358,8 +360,9 @@ def _replay_hard(limit_type):
         bad, tried = [], []
         for total, ok in ((40.0, False), (50.0, True), (100.0, True), (200.0, True), (250.0, False)):
             opt = _Opt()
-            opt.adjustments = [ao.SpendingAdjustment("a", 2020.0, limit_type, lo[0], hi[0]), ao.SpendingAdjustment("b", 2020.0, limit_type, lo[1], hi[1])]
-            instr = at.ProgramInstructions(start_year=2020, alloc={"a": at.TimeSeries(2020.0, 30.0), "b": at.TimeSeries(2020.0, 70.0)})
+            early = (1.0, 2.0) if limit_type == "abs" else (0.01, 0.02)   # program a is also adjustable in 2015, with other (much tighter) bounds
+            opt.adjustments = [ao.SpendingAdjustment("a", [2015.0, 2020.0], limit_type, [early[0], lo[0]], [early[1], hi[0]]), ao.SpendingAdjustment("b", 2020.0, limit_type, lo[1], hi[1])]
+            instr = at.ProgramInstructions(start_year=2015, alloc={"a": at.TimeSeries([2015.0, 2020.0], [30.0, 30.0]), "b": at.TimeSeries(2020.0, 70.0)})
             c = ao.TotalSpendConstraint(total_spend=total, t=2020.0)
             case = dict(total=total, limit_type=limit_type, lower=lo, upper=hi)
             try:
